@@ -51,6 +51,12 @@ def gen(rng, tier):
         M = [[Fraction(rng.randint(0, 9), 1) for _ in range(len(present))] for _ in present]
         yield {'trajs': trajs, 'lag': lag, 'S': [present[0]], 'F': [present[-1]], 'dtype': fits[0] if rng.random() < 0.6 else rng.choice(fits),
                'other': other, 'M': [[str(x) for x in r] for r in M], 'alpha': akind, 'big': False}
+    # one labeling pair with far more than 65535 frames of a single (state1, state2) pair
+    N = 150001
+    a = [0] * 100000 + [1] * 30000 + [2] * 20001
+    b = [5] * 100000 + [7] * 25000 + [9] * 25001
+    yield {'trajs': [a[:70000], a[70000:70010], a[70010:]], 'lag': 1, 'S': [0], 'F': [2], 'dtype': 'int64',
+           'other': b, 'M': [['1', '2'], ['3', '4']], 'alpha': 'long', 'big': True}
     for _ in range(2 if tier == 'quick' else 20):   # long labelings for the parallel reduction
         N = rng.choice([1009, 5003, 20011] if tier == 'quick' else [1009, 20011, 100003])
         a = G.traj(rng, [0, 1, 2, 3], N, sticky=0.7)
@@ -90,6 +96,12 @@ def impl(case):
         out['sim_threads'] = res
     M = np.array([[float(Fraction(x)) for x in r] for r in case['M']])
     out['rownorm'] = _guard(lambda: [_f(v) for v in mh.msm.row_normalize_matrix(M).flatten()])
+
+    def rn32():
+        r = mh.msm.row_normalize_matrix(M.astype(np.float32))
+        return {'dtype': str(r.dtype), 'v': [_f(v) for v in r.flatten()]}
+    out['rownorm32'] = _guard(rn32)
+    out['rownorm_int'] = _guard(lambda: [_f(v) for v in mh.msm.row_normalize_matrix(M.astype(np.int64)).flatten()])
     out['mpow'] = _guard(lambda: [_f(v) for v in mh.utils.matrix_power(mh.msm.row_normalize_matrix(M), 5).flatten()])
     out['find_first'] = _guard(lambda: [int(mh.utils.find_first(v, np.array(case['trajs'][0], dtype=dt))) for v in case['S'] + case['F'] + [987654]])
     if not case['big']:
